@@ -119,6 +119,19 @@ def mutants_of_line(l):
     # a call made for its effect only: `self.a.b(...);` / `x.y(...);`
     if re.match(r"(self|[a-z_][\w]*)(\.[\w]+)+\(.*\);$", s) and not s.startswith(("let ", "return ")) and "?" not in s and ".await" not in s:
         res.append(("delete-call", l[:len(l) - len(l.lstrip())] + "// (call deleted)"))
+    # neighbouring enum variant of the `Name::_N` families (DR::_3, Window::_1, Rx::_2, SpreadingFactor::_7 ...)
+    for m in re.finditer(r"\b([A-Z]\w*)::_(\d+)\b", code):
+        n = int(m.group(2))
+        for nn in (n + 1, n - 1):
+            if nn >= 0:
+                res.append((f"variant {m.group(0)}->_{nn}", l[:m.start(2)] + str(nn) + l[m.end(2):]))
+    for a, b in (("Frame::Join", "Frame::Data"), ("Frame::Data", "Frame::Join")):
+        for m in re.finditer(re.escape(a) + r"\b", code):
+            res.append((f"variant {a}->{b}", l[:m.start()] + b + l[m.end():]))
+    # an arm or tail expression that yields Some(..) yields None instead
+    m = re.match(r"^(\s*(?:.*=> )?)Some\((.*)\)(,?)$", code)
+    if m and code.count("(") == code.count(")"):
+        res.append(("some->none", l[:m.end(1)] + "None" + m.group(3)))
     # negate a whole `if` condition
     m = re.match(r"^(\s*(?:\} else )?if )(?!let )(.+) \{$", code)
     if m and "let " not in m.group(2):
